@@ -66,6 +66,7 @@ pub fn build(id: &str, tier: Tier) -> Option<Check> {
             jobs: vec![
                 bfs(hub("c04-nofee", |h| { h.arm.c04 = true; h.with_rewards = true; h.with_transfers = true; h.seeds = if q { vec!["funded", "slashed", "rewarded"] } else { vec!["funded", "slashed", "rewarded", "inflight", "three_vals"] }; h.budget = tier.pick(1, 2); }), tier.pick(4, 5), secs),
                 bfs(hub("c04-pegfee", |h| { h.arm.c04 = true; h.peg_fee = "0.01"; h.seeds = vec!["slashed"]; h.with_registry = true; }), tier.pick(4, 5), secs),
+                bfs(hub("c04-big", |h| { h.arm.c04 = true; h.big = true; h.with_rewards = true; h.bond_amounts = vec![1_000_000_007, 1_000_000_000_000_000_000]; h.seeds = vec!["slashed", "rewarded"]; h.with_withdraw = false; h.budget = 0; }), tier.pick(3, 4), secs),
             ],
             rule: "every non-slash transition of the hub-core exploration compares both State-query exchange rates before and after (exact Decimal comparison) whenever the token has claims on both sides; non-trivial = a transition where a rate was compared".into(),
             assumptions: envelope(),
@@ -86,7 +87,7 @@ pub fn build(id: &str, tier: Tier) -> Option<Check> {
             id: "C06",
             jobs: vec![
                 bfs(hub("c06-main", |h| { h.arm.c06 = true; h.with_rewards = true; h.budget = tier.pick(2, 3); h.slash_fracs = if q { vec![(1, 10)] } else { vec![(1, 10), (1, 2), (1, 10000)] }; h.seeds = if q { vec!["funded", "slashed_unseen"] } else { vec!["funded", "slashed_unseen", "inflight", "three_vals"] }; h.with_withdraw = false; }), tier.pick(4, 5), secs),
-                bfs(ulc("c06-release", |h| { h.arm.c06 = true; h.budget = tier.pick(2, 3); h.slash_vals = vec!["val1", "val2"]; h.sym = false; h.amounts_abs = vec![100, 37]; h.seeds = vec!["funded", "two_inflight"]; }), tier.pick(5, 7), secs),
+                bfs(ulc("c06-release", |h| { h.arm.c06 = true; h.budget = tier.pick(2, 3); h.slash_vals = vec!["val1", "val2"]; h.sym = false; h.amounts_abs = vec![100, 37]; h.seeds = vec!["funded", "two_inflight"]; h.unbonding_slash = vec![(1, 2), (1, 50)]; }), tier.pick(5, 7), secs),
                 bfs(hub("c06-onepool", |h| { h.arm.c06 = true; h.budget = 2; h.seeds = vec!["fresh"]; h.with_withdraw = false; h.with_convert = false; h.bond_amounts = vec![1000, 3]; h.slash_fracs = vec![(1, 10), (1, 2)]; }), tier.pick(4, 5), secs),
             ],
             rule: "hub-core exploration with a slashing budget F; in every distinct state the recognition function (State query) is compared with the exact pro-rata split of the surviving delegation; every pricing transaction must store exactly recognised pools + its own delta; non-trivial = state or transition with an unrecognised slash, or a pricing op".into(),
@@ -141,7 +142,7 @@ pub fn build(id: &str, tier: Tier) -> Option<Check> {
             ],
             rule: "in every distinct state of a hub-core exploration (bond, unbond, convert, withdraw, transfers, reward accrual and index updates, time, <= F slashing deviations incl. 50% slashes and full pool drains) a probe runs on clones: every holder unbonds one unit and its whole balance of each token; the whole-balance exit is continued (jump past the epoch, a fresh holder's one-unit unbond must close the batch, jump past the unbonding period, withdraw); and every user-facing transition (bond, unbond, convert, withdraw, slashing check, token transfer/send, reward claim) is re-executed under the 8 other swap/oracle stub-mode combinations (ok/fail/garbage) and must give the identical result, effects and post-state; non-trivial = a state with exit probes or a transition with stub-mode products".into(),
             assumptions: envelope(),
-            essential: vec!["c09_exit_probes", "c09_exit_completed", "c09_stub_mode_products", "c09_matured_claim_probes"],
+            essential: vec!["c09_exit_probes", "c09_exit_completed", "c09_stub_mode_products", "c09_matured_claim_probes", "c09_unbond_after_epoch_checked"],
         },
         "C10" => Check {
             id: "C10",
@@ -169,10 +170,13 @@ pub fn build(id: &str, tier: Tier) -> Option<Check> {
         },
         "C12" => Check {
             id: "C12",
-            jobs: vec![Box::new(C12Enum { max_len: tier.pick(5, 7), max_val: tier.pick(5, 6) })],
-            rule: "every validator list of length 0..=L with delegations in 0..=V in every order (L=5,V=5 quick; L=7,V=6 thorough), every amount 0..=sum+6, plus the same box scaled by 1e6+3, 1e12+7 and ~1e18/(L*V) with +-1 perturbations of delegations and amounts, through the public calculate_delegations / calculate_undelegations; each call under a 30 s watchdog; non-trivial = accepted plan with amount > 0".into(),
+            jobs: vec![
+                Box::new(C12Enum { max_len: tier.pick(5, 7), max_val: tier.pick(5, 6) }),
+                bfs(hub("c12-end-to-end", |h| { h.arm.c12 = true; h.with_registry = true; h.with_convert = false; h.with_withdraw = false; h.bond_amounts = vec![100, 3, 1]; h.seeds = vec!["three_vals", "uneven_vals", "funded"]; h.budget = 1; }), tier.pick(4, 5), secs),
+            ],
+            rule: "every validator list of length 0..=L with delegations in 0..=V in every order (L=5,V=5 quick; L=7,V=6 thorough), every amount 0..=sum+6, plus the same box scaled by 1e6+3, 1e12+7 and ~1e18/(L*V) with +-1 perturbations of delegations and amounts, through the public calculate_delegations / calculate_undelegations; each call under a 30 s watchdog; plus the plans as the hub applies them: in a hub-core exploration with registry changes (3 validators, a validator added after stake exists, slashing) every bond's Delegate messages are judged against the registered validators' delegations and every batch-closing unbond's Undelegate messages against all of the hub's delegations, with the same four predicates; non-trivial = accepted plan with amount > 0".into(),
             assumptions: vec!["the two planning functions are pure; totals stay below 2^127 (u128-safe range of the property)".into()],
-            essential: vec!["c12_empty_list", "c12_lists_with_zero", "c12_unsorted_lists", "c12_undelegate_rejected", "c12_large_n_lists"],
+            essential: vec!["c12_empty_list", "c12_lists_with_zero", "c12_unsorted_lists", "c12_undelegate_rejected", "c12_large_n_lists", "c12_hub_delegation_plan_checked", "c12_hub_undelegation_plan_checked", "c12_hub_bond_with_a_validator_above_the_share"],
         },
         "C14" => Check {
             id: "C14",
@@ -192,11 +196,12 @@ pub fn build(id: &str, tier: Tier) -> Option<Check> {
                 bfs(rw("c15-allowance", |h| { h.arm.c15 = true; h.seeds = vec!["allowances"]; h.with_allowance = true; h.with_sink = true; h.rewards = vec![19]; }), tier.pick(4, 5), secs),
                 bfs(rw("c15-diamonds", |h| { h.arm.diamonds = true; h.seeds = vec!["allowances"]; h.with_allowance = true; h.rewards = vec![19]; }), tier.pick(2, 3), secs),
                 bfs(rw("c15-split-2-1", |h| { h.seeds = vec!["split"]; h.split = Some((2, 1)); h.rewards = vec![7, 1_000_000_000_000_000_000]; }), tier.pick(6, 8), secs),
+                bfs(hub("c15-pipeline", |h| { h.arm.c15 = true; h.with_rewards = true; h.with_transfers = true; h.with_withdraw = false; h.bond_amounts = vec![100]; h.seeds = vec!["funded", "bsei_only", "pending_rewards"]; h.budget = 0; }), tier.pick(4, 5), secs),
                 bfs(rw("c15-split-big", |h| { h.seeds = vec!["split"]; h.split = Some((999_999_999_999_999_999, 1)); h.rewards = vec![1, 1000]; }), tier.pick(6, 7), secs),
             ],
-            rule: "(i) reference ledger: at each delivery every holder's reference accrual grows by balance x distributed / total (floor and ceiling bounds in 1e-18 units) and accrued + claimed must stay within it; (ii) frame: every non-delivery transition leaves every holder's exact accrued reward unchanged (own claim excepted); (iii) commutation diamonds: in every state up to depth D every pair of enabled operations of different actors is run in both orders and the reward contract's storage must be byte-identical; (iv) product exploration: a world where alice holds X in one account and a world where the same X is split over two accounts run in lock-step under identical operations of everyone else; accrual must be equal. non-trivial = transitions where one of these compared something".into(),
+            rule: "(i) reference ledger: at each delivery every holder's reference accrual grows by balance x distributed / total (floor and ceiling bounds in 1e-18 units) and accrued + claimed must stay within it; (ii) frame: every non-delivery transition leaves every holder's exact accrued reward unchanged (own claim excepted); (iii) commutation diamonds: in every state up to depth D every pair of enabled operations of different actors is run in both orders and the reward contract's storage must be byte-identical; (iv) product exploration: a world where alice holds X in one account and a world where the same X is split over two accounts run in lock-step under identical operations of everyone else; accrual must be equal; (v) the real pipeline: in a hub-core exploration every UpdateGlobalIndex that runs through hub, dispatcher, swap and reward contract must let every holder accrue its token balance x delivered / supply. non-trivial = transitions where one of these compared something".into(),
             assumptions: envelope(),
-            essential: vec!["c15_frame_checked", "c15_reference_ledger_checked", "c15_diamond_pairs_compared", "c15_product_steps"],
+            essential: vec!["c15_frame_checked", "c15_reference_ledger_checked", "c15_diamond_pairs_compared", "c15_product_steps", "c15_pipeline_update_with_delivery"],
         },
         "C16" => Check {
             id: "C16",
@@ -220,10 +225,11 @@ pub fn build(id: &str, tier: Tier) -> Option<Check> {
                     Box::new(C17Enum { balances: vec![0, 3, 1000, 1_000_000_000_000_000_000], bonded: vec![0, 2, 1_000_003], prices: vec!["0.75", "1", "1000"], rates: vec!["0.05", "1"], third_denom: vec![0, 5, 1_000_000], label: "third-denom".into(), duplicate_denom: None }),
                     Box::new(C17Enum { balances: vec![0, 3, 200, 1_000_003], bonded: vec![0, 1, 3], prices: vec!["0.75", "1", "32"], rates: vec!["0.05"], third_denom: vec![0, 500], label: "duplicate-swap-denom".into(), duplicate_denom: Some(USEI) }),
                     bfs(crate::params::Params::for_c17(), tier.pick(3, 4), secs),
+                    bfs(hub("c17-hub-split", |h| { h.arm.c17 = true; h.with_rewards = true; h.with_convert = false; h.with_withdraw = false; h.bond_amounts = vec![100]; h.seeds = vec!["rewarded", "slashed", "inflight"]; h.budget = 0; }), tier.pick(3, 4), secs),
                 ],
-                rule: "every tuple (dispatcher usei balance, kusd balance, stSei bonded, bSei bonded, oracle price, keeper rate) of the stated box (and a smaller box with a third swap denom) is run through the real SwapToRewardDenom + DispatchRewards entry points (sent by the hub address) on the integrated deployment with the stub swap/oracle; plus a BFS over dispatcher configuration updates (shared with C20) for 'keeper rate never above 1'; non-trivial = a tuple where something was swapped or dispatched".into(),
+                rule: "every tuple (dispatcher usei balance, kusd balance, stSei bonded, bSei bonded, oracle price, keeper rate) of the stated box (and a smaller box with a third swap denom) is run through the real SwapToRewardDenom + DispatchRewards entry points (sent by the hub address) on the integrated deployment with the stub swap/oracle; plus a BFS over dispatcher configuration updates (shared with C20) for 'keeper rate never above 1'; plus the hub's side of the interaction: in a hub-core exploration (stSei rate above and below par, pending unbond requests) every complete UpdateGlobalIndex must leave the stSei side total x stSei bonded / total bonded; non-trivial = a tuple where something was swapped or dispatched".into(),
                 assumptions: vec!["swap and oracle behave as the stubs of DESIGN.md section 3.1 (swap executes at the oracle price, floor rounding)".into(), "bank module rejects zero-amount coins in MsgSend (stated in the property)".into(), "swap_denoms contains both reward denoms (E3)".into()],
-                essential: vec!["c17_sell_usei", "c17_sell_kusd", "c17_dispatch_ok", "c20_dispatcher_rate_checked"],
+                essential: vec!["c17_sell_usei", "c17_sell_kusd", "c17_dispatch_ok", "c20_dispatcher_rate_checked", "c17_hub_split_checked", "c19_split_with_stsei_rate_off_par"],
             }
         }
         "C13" => Check {
@@ -269,7 +275,7 @@ pub fn build(id: &str, tier: Tier) -> Option<Check> {
                         h.with_withdraw = false;
                         h.bond_amounts = vec![100];
                         h.budget = 1;
-                        h.seeds = if q { vec!["funded", "inflight", "bsei_all_pending"] } else { vec!["funded", "inflight", "bsei_all_pending", "three_vals", "slashed_unseen"] };
+                        h.seeds = if q { vec!["funded", "inflight", "bsei_all_pending", "bsei_only", "stsei_only", "pending_rewards"] } else { vec!["funded", "inflight", "bsei_all_pending", "bsei_only", "stsei_only", "pending_rewards", "three_vals", "slashed_unseen"] };
                         h.reward_amounts = vec![("val1", USEI, 1000), ("val2", KUSD, 400), ("val1", USEI, 400_000_000_000_000_000), ("val2", USEI, 7), ("val1", KUSD, 19), ("val2", USEI, 1)];
                     }),
                     tier.pick(4, 5),
